@@ -7,7 +7,7 @@ import Qwt.Props.C06
 /-!
 `PrefetchSupport::new` (`src/quadwt/prefetch_support.rs`, model `Qwt.PFS.new`) never faults on a
 quad vector satisfying the C13 invariant and produces four sample bit vectors whose prefix
-ranks are the sampled (`/ 2048`) prefix ranks of the level: `PfsRep`.
+ranks are the sampled (`/ rate`, `rate = 2 ^ pfsSampleShift`) prefix ranks of the level: `PfsRep`.
 
 The build state holds three arrays of length four; they are handled as `mk4 f = #[f 0, f 1, f 2, f 3]`.
 -/
@@ -64,15 +64,21 @@ theorem push4 (bv bv' : Nat → BitVector) (bits : Array Bool)
 def StInv (L : List Nat) (i : Nat) (bv : Nat → BitVector) (cnt : Nat → Nat) (bit : Nat → Bool) : Prop :=
   ∀ k, k < 4 →
     cnt k = Spec.rank k i L ∧
-    bit k = decide (Spec.rank k (cOf L.length i) L / 2048 < Spec.rank k i L / 2048) ∧
+    bit k = decide (Spec.rank k (cOf L.length i) L / rate < Spec.rank k i L / rate) ∧
     BV.Inv (bv k) ∧ (BV.abs (bv k)).length = mOf L.length i ∧
     ∀ j, j ≤ mOf L.length i →
-      Spec.rank true j (BV.abs (bv k)) = Spec.rank k (covered L.length j) L / 2048
+      Spec.rank true j (BV.abs (bv k)) = Spec.rank k (covered L.length j) L / rate
 
 theorem mOf_le {n i : Nat} (h : i ≤ n) : mOf n i ≤ n := by
-  unfold mOf nbOf; split
-  · split <;> omega
-  · omega
+  by_cases hin : i = n
+  · subst hin; rw [mOf_self]; exact nbOf_le _
+  · rw [mOf_of_ne hin]
+    by_cases h0 : i = 0
+    · subst h0; rw [Nat.zero_add, Nat.div_eq_of_lt (by have := rate_pos; omega)]; omega
+    · have e := ceil_succ rate_pos (i - 1)
+      rw [show i - 1 + 1 + rate - 1 = i + rate - 1 by omega] at e
+      have := Nat.div_le_self (i - 1) rate
+      omega
 
 
 theorem getElem?_of_eq {L : List Nat} {i sym : Nat} (hi : i < L.length) (hs : L[i] = sym) :
@@ -81,7 +87,7 @@ theorem getElem?_of_eq {L : List Nat} {i sym : Nat} (hi : i < L.length) (hs : L[
 theorem buildStep_ok (qv : QV.QVector) (hq : QV.Inv qv) (hn : (QV.abs qv).length + 1 < two64)
     (i : Nat) (hi : i < (QV.abs qv).length) (bv : Nat → BitVector) (cnt : Nat → Nat)
     (bit : Nat → Bool) (h : StInv (QV.abs qv) i bv cnt bit) :
-    ∃ bv' cnt' bit', PFS.buildStep qv 2048 ⟨mk4 bv, mk4 cnt, mk4 bit⟩ i =
+    ∃ bv' cnt' bit', PFS.buildStep qv rate ⟨mk4 bv, mk4 cnt, mk4 bit⟩ i =
         .ok ⟨mk4 bv', mk4 cnt', mk4 bit'⟩ ∧ StInv (QV.abs qv) (i + 1) bv' cnt' bit' := by
   have hget := QV.getUnchecked_ok false hq hi
   have hsym : (QV.abs qv)[i] < 4 := by rw [QV.getElem_abs]; exact QV.symAt_lt _ _
@@ -96,34 +102,34 @@ theorem buildStep_ok (qv : QV.QVector) (hq : QV.Inv qv) (hn : (QV.abs qv).length
     · rw [if_pos e, (h k hk).1, RSQP.rank_succ_of_eq k L (by rw [hLi, e])]
     · rw [if_neg e, (h k hk).1, RSQP.rank_succ_of_ne k L (by rw [hLi]; intro e'; cases e'; exact e rfl)]
   have hbit : ∀ k, k < 4 →
-      (if ((cnt sym + 1) % 2048 == 0) = true then (if k = sym then true else bit k) else bit k) =
-        decide (Spec.rank k (cOf L.length i) L / 2048 < Spec.rank k (i + 1) L / 2048) := by
+      (if ((cnt sym + 1) % rate == 0) = true then (if k = sym then true else bit k) else bit k) =
+        decide (Spec.rank k (cOf L.length i) L / rate < Spec.rank k (i + 1) L / rate) := by
     intro k hk
     have hle := RSQP.rank_mono k L (cOf_le (Nat.le_of_lt hi))
     by_cases e : k = sym
     · subst e
       rw [RSQP.rank_succ_of_eq k L hLi, flag_succ hle, ← (h k hk).2.1, ← (h k hk).1]
-      cases ((cnt k + 1) % 2048 == 0) <;> simp
+      cases ((cnt k + 1) % rate == 0) <;> simp
     · rw [RSQP.rank_succ_of_ne k L (by rw [hLi]; intro e'; cases e'; exact e rfl), ← (h k hk).2.1]
       simp [e]
   unfold PFS.buildStep
   rw [hget]
   simp only [ok_bind, mk4_modify cnt _ hsym]
   rw [mk4_get _ hsym, if_pos rfl]
-  have hbits : (if ((cnt sym + 1) % 2048 == 0) = true then (mk4 bit).set! sym true else mk4 bit) =
-      mk4 (fun k => if ((cnt sym + 1) % 2048 == 0) = true then (if k = sym then true else bit k)
+  have hbits : (if ((cnt sym + 1) % rate == 0) = true then (mk4 bit).set! sym true else mk4 bit) =
+      mk4 (fun k => if ((cnt sym + 1) % rate == 0) = true then (if k = sym then true else bit k)
         else bit k) := by
-    cases ((cnt sym + 1) % 2048 == 0)
+    cases ((cnt sym + 1) % rate == 0)
     · rfl
     · simp only [if_true]; exact mk4_set bit true hsym
   rw [hbits]
-  have hcond : ((i % 2048 == 0 || i + 1 == QV.len qv) = true) ↔ (i % 2048 = 0 ∨ i + 1 = L.length) := by
+  have hcond : ((i % rate == 0 || i + 1 == QV.len qv) = true) ↔ (i % rate = 0 ∨ i + 1 = L.length) := by
     rw [hlen]; simp
-  by_cases hp : i % 2048 = 0 ∨ i + 1 = L.length
+  by_cases hp : i % rate = 0 ∨ i + 1 = L.length
   · rw [if_pos (hcond.mpr hp)]
     obtain ⟨hm, hc, hcov⟩ := step_push hi hp
     let bitN : Nat → Bool := fun k =>
-      if ((cnt sym + 1) % 2048 == 0) = true then (if k = sym then true else bit k) else bit k
+      if ((cnt sym + 1) % rate == 0) = true then (if k = sym then true else bit k) else bit k
     let bv' : Nat → BitVector := fun k =>
       match BV.push (bv k) (bitN k) with
       | .ok b => b
@@ -184,11 +190,11 @@ theorem init_stInv (L : List Nat) :
     rw [mOf_zero] at hj
     have : j = 0 := by omega
     subst this
-    rw [covered_zero, RSQP.rank_zero, RSQP.rank_zero]
+    rw [covered_zero, RSQP.rank_zero, RSQP.rank_zero, Nat.zero_div]
 
 theorem build_fold (qv : QV.QVector) (hq : QV.Inv qv) (hn : (QV.abs qv).length + 1 < two64) :
     ∀ n, n ≤ (QV.abs qv).length → ∃ bv cnt bit,
-      (List.range n).foldlM (PFS.buildStep qv 2048) {} = .ok ⟨mk4 bv, mk4 cnt, mk4 bit⟩ ∧
+      (List.range n).foldlM (PFS.buildStep qv rate) {} = .ok ⟨mk4 bv, mk4 cnt, mk4 bit⟩ ∧
       StInv (QV.abs qv) n bv cnt bit := by
   intro n
   induction n with
@@ -211,18 +217,18 @@ theorem mapM4 {α β} (f : α → M β) (a : Nat → α) (b : Nat → β)
 
 /-- what `PrefetchSupport::new` establishes for a level holding the quaternary list `L` -/
 structure PfsRep (L : List Nat) (p : PFS.PrefetchSupport) : Prop where
-  shift : p.sampleRateShift = 11
+  shift : p.sampleRateShift = Extracted.pfsSampleShift
   size : p.samples.size = 4
   sample : ∀ k, k < 4 → ∃ r bits, p.samples[k]? = some r ∧ RSN.Inv r bits ∧
     bits.length = nbOf L.length ∧
     ∀ j, j ≤ nbOf L.length →
-      Spec.rank true j bits = Spec.rank k (covered L.length j) L / 2048
+      Spec.rank true j bits = Spec.rank k (covered L.length j) L / rate
 
 theorem mk4_getElem? {α} (f : Nat → α) {k : Nat} (h : k < 4) : (mk4 f)[k]? = some (f k) := by
   rcases lt4 h with rfl | rfl | rfl | rfl <;> rfl
 
 theorem new_ok (qv : QV.QVector) (hq : QV.Inv qv) (hn : (QV.abs qv).length + 1 < two64) :
-    ∃ p, PFS.new qv 11 = .ok p ∧ PfsRep (QV.abs qv) p := by
+    ∃ p, PFS.new qv Extracted.pfsSampleShift = .ok p ∧ PfsRep (QV.abs qv) p := by
   obtain ⟨bv, cnt, bit, e, hI⟩ := build_fold qv hq hn _ (Nat.le_refl _)
   let r : Nat → RSN.RSNarrow := fun k =>
     match RSN.new (bv k) with
@@ -233,10 +239,10 @@ theorem new_ok (qv : QV.QVector) (hq : QV.Inv qv) (hn : (QV.abs qv).length + 1 <
     obtain ⟨x, e1, _, e3⟩ := Props.C06.rsn_new_inv (Props.C06.holds_of_inv (hI k hk).2.2.1)
     have : r k = x := by simp only [r, e1]
     rw [this]; exact ⟨e1, e3⟩
-  refine ⟨⟨mk4 r, 11⟩, ?_, rfl, rfl, ?_⟩
+  refine ⟨⟨mk4 r, Extracted.pfsSampleShift⟩, ?_, rfl, rfl, ?_⟩
   · unfold PFS.new
-    rw [show (1 <<< 11 : Nat) = 2048 from rfl, QV.len_ok]
-    show (List.foldlM (PFS.buildStep qv 2048) { } (List.range (QV.abs qv).length) >>= _) = _
+    rw [one_shiftLeft_shift, QV.len_ok]
+    show (List.foldlM (PFS.buildStep qv rate) { } (List.range (QV.abs qv).length) >>= _) = _
     rw [e, ok_bind]
     show (mk4 bv).mapM RSN.new >>= _ = _
     rw [mapM4 RSN.new bv r (fun k hk => (hr k hk).1)]
@@ -251,27 +257,29 @@ theorem new_ok (qv : QV.QVector) (hq : QV.Inv qv) (hn : (QV.abs qv).length + 1 <
 
 /-- the value of `approx_rank_unchecked(tb, pos)` on a level holding `L` -/
 def approxSpec (L : List Nat) (tb pos : Nat) : Nat :=
-  Spec.rank tb (covered L.length (pos / 2048 + 1)) L / 2048 * 2048
+  Spec.rank tb (covered L.length (pos / rate + 1)) L / rate * rate
 
 theorem uidx_ok' {α} {a : Array α} {i : Nat} {x : α} (h : a[i]? = some x) : uidx a i = .ok x := by
   obtain ⟨hi, hx⟩ := Array.getElem?_eq_some_iff.mp h
   simp [uidx, hi, hx]
 
 theorem approx_ok {L : List Nat} {p : PFS.PrefetchSupport} (h : PfsRep L p) {tb pos : Nat}
-    (htb : tb < 4) (hpos : pos / 2048 + 1 ≤ nbOf L.length) :
+    (htb : tb < 4) (hpos : pos / rate + 1 ≤ nbOf L.length) :
     PFS.approxRankUnchecked p tb pos = .ok (approxSpec L tb pos) := by
   obtain ⟨r, bits, hr, hinv, hlen, hpre⟩ := h.sample tb htb
   have hne : bits ≠ [] := by
-    intro e; rw [e] at hlen; simp at hlen; omega
+    intro e; rw [e] at hlen; simp at hlen
+    generalize pos / rate = q at hpos
+    omega
   unfold PFS.approxRankUnchecked
-  rw [h.shift, uidx_ok' hr, ok_bind, Nat.shiftRight_eq_div_pow, hinv.rank1_eq,
+  rw [h.shift, one_shiftLeft_shift, shiftRight_shift, uidx_ok' hr, ok_bind, hinv.rank1_eq,
     if_pos ⟨hne, by rw [hlen]; exact hpos⟩, ok_bind]
   show Except.ok _ = _
   rw [hpre _ hpos]
   rfl
 
 theorem approxSpec_le_rank (L : List Nat) (tb pos : Nat) :
-    approxSpec L tb pos ≤ Spec.rank tb (covered L.length (pos / 2048 + 1)) L := by
+    approxSpec L tb pos ≤ Spec.rank tb (covered L.length (pos / rate + 1)) L := by
   unfold approxSpec; exact Nat.div_mul_le_self _ _
 
 /-- a lower estimate up to one: `approx_rank(tb, pos) ≤ rank(tb, pos) + 1` -/
@@ -292,17 +300,17 @@ theorem approxSpec_mono (L : List Nat) (tb : Nat) {p q : Nat} (h : p ≤ q) :
   apply Nat.div_le_div_right
   apply RSQP.rank_mono
   apply covered_mono
-  have := Nat.div_le_div_right (c := 2048) h
+  have := Nat.div_le_div_right (c := rate) h
   omega
 
 /-- the meaning of a single sample bit: bit `j` is set iff the counter of `k` passes a multiple
-    of 2048 inside the chunk covered by bit `j` -/
+    of rate inside the chunk covered by bit `j` -/
 theorem sample_bit {L : List Nat} {k : Nat} {bits : List Bool}
     (hpre : ∀ j, j ≤ nbOf L.length →
-      Spec.rank true j bits = Spec.rank k (covered L.length j) L / 2048)
+      Spec.rank true j bits = Spec.rank k (covered L.length j) L / rate)
     (hlen : bits.length = nbOf L.length) (j : Nat) (hj : j < nbOf L.length) :
-    bits[j]? = some (decide (Spec.rank k (covered L.length j) L / 2048 <
-      Spec.rank k (covered L.length (j + 1)) L / 2048)) := by
+    bits[j]? = some (decide (Spec.rank k (covered L.length j) L / rate <
+      Spec.rank k (covered L.length (j + 1)) L / rate)) := by
   have h1 := hpre j (by omega)
   have h2 := hpre (j + 1) (by omega)
   have hj' : j < bits.length := by omega
@@ -312,12 +320,12 @@ theorem sample_bit {L : List Nat} {k : Nat} {bits : List Bool}
   congr 1
   cases hb : bits[j]
   · rw [hb] at h3; simp at h3
-    have : ¬ (Spec.rank k (covered L.length j) L / 2048 <
-      Spec.rank k (covered L.length (j + 1)) L / 2048) := by omega
+    have : ¬ (Spec.rank k (covered L.length j) L / rate <
+      Spec.rank k (covered L.length (j + 1)) L / rate) := by omega
     simp [this]
   · rw [hb] at h3; simp at h3
-    have : (Spec.rank k (covered L.length j) L / 2048 <
-      Spec.rank k (covered L.length (j + 1)) L / 2048) := by omega
+    have : (Spec.rank k (covered L.length j) L / rate <
+      Spec.rank k (covered L.length (j + 1)) L / rate) := by omega
     simp [this]
 
 end Qwt.PfsP
